@@ -9,6 +9,11 @@
     positions is thereby redistributed over every holder of the asset (the factor g of the property), not destroyed;
   * `slash_keeps_staked_and_custody`: a whole successful `SlashValidator` (bonded shares, pending redelegations,
     pending unbondings) leaves every asset's staked total unchanged and never lowers the custody gap.
+  * the DIRECTION of every value change, through all the roundings of the 18-digit arithmetic (AllianceProofs/ValueMono:
+    banker's rounding, `Quo`, `Mul`, `TruncateInt` are monotone): `other_positions_never_lose_value` (what
+    `GetDelegationTokens` reports for any position on a validator whose records are untouched does not fall when the
+    asset's share total shrinks), `other_validator_value_never_falls`, `slashed_validator_value_never_rises` (the same x
+    off the validator's shares and off the share total never raises the validator's token value).
   Not proved: the exact-rational statement about each position's redeemable value ((1−f)·g with an explicit
   tolerance) — decided by the monitors `slash_bonded` / `slash_collateral` on concrete histories; the f = 1 corner where
   nothing of the asset is left bonded (`unhealthy_orphaned_total`, scope).
@@ -70,6 +75,36 @@ theorem slash_rejects_bad_fraction (v : ValId) (f : Dec) (w : World) (hf : f ≤
     slashValidator v f w = (.error (.err "invalid_fraction"), w) := by
   unfold slashValidator
   simp only [bind_apply, guardE_apply, hf, if_true]
+
+/-! ## the direction of the value changes, through every rounding -/
+
+/-- "no other position loses value": for a validator whose own records are untouched, shrinking the asset's share total —
+    what a slash of ANOTHER validator does, the staked total staying (`slash_keeps_staked_and_custody`) — never lowers
+    what `GetDelegationTokens` reports for any of its positions (and the report does not start to fail) -/
+theorem other_positions_never_lose_value (shares : Dec) (info : ValInfo) (a : Asset) (TVS' : Dec) (x : Int)
+    (hs : 0 ≤ shares) (htds : 0 ≤ totalDelSharesWithDenom info a.denom) (hvs : 0 ≤ valSharesWithDenom info a.denom)
+    (hT : 0 ≤ a.totalTokens) (hpos : 0 < TVS') (hle : TVS' ≤ a.totalValShares)
+    (h : delegationTokensWithShares shares info a = .ok x) :
+    ∃ x', delegationTokensWithShares shares info { a with totalValShares := TVS' } = .ok x' ∧ x ≤ x' :=
+  other_position_value_not_less shares info a TVS' x hs htds hvs hT hpos hle h
+
+/-- the other validators' token value of the asset does not fall -/
+theorem other_validator_value_never_falls (T : Int) (hT : 0 ≤ T) (vs TVS TVS' : Dec) (hvs : 0 ≤ vs) (hTVS' : 0 < TVS')
+    (hle : TVS' ≤ TVS) :
+    convertNewShareToDecToken (ofInt T) TVS vs ≤ convertNewShareToDecToken (ofInt T) TVS' vs :=
+  valTokens_other_not_less T hT vs TVS TVS' hvs hTVS' hle
+
+/-- the slashed validator's token value of the asset does not rise: the same amount x leaves its shares and the asset's
+    share total (`slash_step_same_amount`), and vs ≤ TVS -/
+theorem slashed_validator_value_never_rises (T : Int) (hT : 0 ≤ T) (vs TVS x : Dec) (hx : 0 ≤ x) (hxv : x ≤ vs)
+    (hv : vs ≤ TVS) (hpos : 0 < TVS - x) :
+    convertNewShareToDecToken (ofInt T) (TVS - x) (vs - x) ≤ convertNewShareToDecToken (ofInt T) TVS vs :=
+  valTokens_slashed_not_more T hT vs TVS x hx hxv hv hpos
+
+/-- non-vacuity: validator holds 400 of 1000 shares of an asset with 1000 tokens staked; another validator is slashed by
+    100 shares: its value goes from 400 to 444.44… tokens -/
+example : convertNewShareToDecToken (ofInt 1000) (1000 * one) (400 * one) = 400 * one ∧
+    convertNewShareToDecToken (ofInt 1000) (900 * one) (400 * one) = 444444444444444444000 := by decide
 
 /-- non-vacuity: 5 % of 1 000 000 shares -/
 example : (1000000 * one : Dec) - cut (1000000 * one) (50000000000000000) = 950000 * one := by decide
